@@ -13,6 +13,7 @@ CONSTANTS
   AllowDecor = FALSE
   OnExcChoices = {TRUE, FALSE}
   PreForceChoices = {FALSE}
+  XfDecChoices = {FALSE}
   StepOps = {"upcall", "addCleanup", "addDetail", "expect", "patch", "useFixture"}
   AllowMulti = FALSE
   Variant = "asRequired"
@@ -20,7 +21,7 @@ CONSTANTS
   GatherOf <- MCGatherOf
   CleanOf <- MCCleanOf
   FixtureSetUpFails <- MCFixtureSetUpFails
-  FixtureFailCount <- MCFixtureFailCount
+  FixtureFailKinds <- MCFixtureFailKinds
   FixtureCleanKind <- MCFixtureCleanKind
   FixtureGatherRaises <- MCFixtureGatherRaises
   FixtureDetails <- MCFixtureDetails
